@@ -19,6 +19,7 @@ from fractions import Fraction as Fr
 sys.path.insert(0, os.path.dirname(os.path.dirname(os.path.abspath(__file__))))
 import fxp_lib as L  # noqa: E402
 from fxp_lib import SimNet  # noqa: E402
+from simnet import Scheduler  # noqa: E402
 import common  # noqa: E402
 
 LEVEL = 'other'
@@ -416,6 +417,7 @@ def run(ctx):
         handle(ctx, r, items)
     L.run_corr(ctx, items, 'secure float pair operations (sectypes.SecureFloat vs MpycV.Flt)')
     subset_outputs(ctx)
+    placeholders(ctx)
 
 
 SUBSET_LISTS = [[0.0, 3.5, -1250.0, 2.0 ** -7], [3.5, 0.0, 0.0], [0.0], [0.0, 0.0, 1.0], [-2.75, 1.5, 0.0, 96.0], [1024.0]]
@@ -466,6 +468,59 @@ def subset_outputs(ctx):
                     return
 
 
+def placeholder_case(m, t, no_prss, se, a, b, x, op, waiter, seed):
+    """a secure float RETURNED BY A USER COROUTINE (a placeholder the caller gets at once) is consumed by the next operation
+    before the coroutine has finished at some parties and after it at one (that party happens to wait for an opening of it
+    first -- awaiting is a local decision): the result must be the same, and right, at every party"""
+    async def program(mpc):
+        secflt = mpc.SecFlt(s=se[0], e=se[1])
+
+        @mpc.coroutine
+        async def f(u, v) -> secflt:
+            return (u < v) if op == 'lt' else (u * v) if op == 'mul' else (u + v)
+
+        ua, ub, ux = mpc.input([secflt(a), secflt(b), secflt(x)], senders=0)
+        c = f(ua, ub)
+        probe = mpc.output(c)
+        if mpc.pid == waiter:
+            await probe
+        y = c * ux
+        z = c + ux
+        return float(await mpc.output(y)), float(await mpc.output(z)), float(await probe)
+    try:
+        res = SimNet(m, t, no_prss=no_prss, seed=seed, sched=Scheduler(seed, 'random')).run(program)
+    except Exception as exc:  # noqa: BLE001
+        return f'{type(exc).__name__}: {str(exc)[:300]}'
+    cv = float(a < b) if op == 'lt' else a * b if op == 'mul' else a + b
+    u = 2.0 ** -(se[0] - 1)
+    for p in range(m):
+        y, z, c_ = res[p]
+        if abs(c_ - cv) > 16 * u * abs(cv) or abs(y - cv * x) > 48 * u * abs(cv * x) or abs(z - (cv + x)) > 48 * u * max(abs(cv), abs(x)):
+            return (f'party {p} obtained c={c_}, c*x={y}, c+x={z}; c = {op}({a}, {b}) = {cv}, x = {x}')
+    return None
+
+
+def placeholders(ctx):
+    rng = ctx.subrng('placeholder')
+    for (m, t) in ((3, 1), (2, 0)) + (((4, 1), (5, 2)) if ctx.thorough else ()):
+        for op in ('lt', 'mul', 'add'):
+            for _ in range(ctx.scale(1, 4)):
+                se = rng.choice(TYPES[:2])
+                a, b, x = (rng.choice([1.25, 2.5, -3.0, 0.75, 6.0]) for _ in range(3))
+                waiter = rng.randrange(m)
+                no_prss = rng.random() < 0.3
+                seed = rng.randrange(10**9)
+                msg = placeholder_case(m, t, no_prss, se, a, b, x, op, waiter, seed)
+                ctx.case(('placeholder', m, t, no_prss, tuple(se), a, b, x, op, waiter), nontrivial=True)
+                ctx.count('op:coroutine-result-consumed-early/late')
+                if msg:
+                    ctx.violation(f'C05: secure float returned by a user coroutine, consumed at a party-dependent moment '
+                                  f'(m={m}, waiter {waiter}): ' + msg,
+                                  {'kind': 'placeholder', 'm': m, 't': t, 'no_prss': no_prss, 'se': list(se), 'a': a, 'b': b,
+                                   'x': x, 'op': op, 'waiter': waiter, 'seed': seed})
+                    return
+
+
 def handle(ctx, r, items=None):
     se = tuple(r['se'])
     res = r['res']
@@ -501,6 +556,10 @@ def handle(ctx, r, items=None):
 
 
 def replay(ctx, data):
+    if data.get('kind') == 'placeholder':
+        msg = placeholder_case(data['m'], data['t'], data['no_prss'], tuple(data['se']), data['a'], data['b'], data['x'],
+                               data['op'], data['waiter'], data['seed'])
+        return msg is None, msg or 'ok'
     if data.get('kind') == 'subset-output':
         msg = subset_output_case(data['m'], data['t'], data['no_prss'], tuple(data['se']), data['vals'], data['R'],
                                  data['sender'], data['seed'])
